@@ -1,0 +1,11 @@
+//go:build verif
+
+package logging
+
+// Machine-checked contracts (comment-only; build tag verif). Checked by /verif/bin/hv.
+
+// Logger accessors: callers rely only on "returns a usable logger and touches nothing outside this package".
+//@ func L
+//@   ensures result != nil
+//@ func WithContext
+//@   ensures result != nil
